@@ -68,7 +68,7 @@ FUNC = re.compile(r"([A-Za-z_~]\w*|operator\s*[^\s(]{1,3})\s*\(")
 KEYWORDS = {"if", "for", "while", "switch", "return", "assert", "BOOST_MULTI_ASSERT", "BOOST_MULTI_ACCESS_ASSERT", "sizeof", "decltype", "static_cast", "defined", "static_assert", "noexcept", "enable_if_t", "declval"}
 
 
-def enclosing(lines, k):
+def enclosing(lines, k, want_line=False):
     for j in range(k - 1, max(-1, k - 80), -1):
         l = lines[j]
         if l.rstrip().endswith(";") and "{" not in l:
@@ -76,8 +76,25 @@ def enclosing(lines, k):
         if re.search(r"\b(auto|void|bool|explicit|constexpr|static_array|array|friend)\b", l) and "(" in l:
             names = [m.group(1).replace(" ", "") for m in FUNC.finditer(l) if m.group(1) not in KEYWORDS]
             if names:
-                return names[0]
-    return "?"
+                return (names[0], j) if want_line else names[0]
+    return ("?", k) if want_line else "?"
+
+
+LOCAL_DECL = re.compile(r"(?:^|[;{]\s*)(?:auto|[A-Za-z_][\w:]*)(?:\s+const)?\s*(?:&&?|\*)?\s+([a-z_]\w*)\s*=[^=]")
+
+
+def rename_locals(lines, k, expr):
+    """locals declared (`T name = …;`) between the header of the enclosing function and the assertion are replaced by
+    positional names, so that renaming one is not an edit of the assertion"""
+    _, j = enclosing(lines, k, True)
+    names = []
+    for l in lines[j:k]:
+        for m in LOCAL_DECL.finditer(l):
+            if m.group(1) not in names and m.group(1) not in ("this", "other", "self"):
+                names.append(m.group(1))
+    for n, nm in enumerate(names, 1):
+        expr = re.sub(r"(?<![\w.>])" + re.escape(nm) + r"(?![\w(])", f"_local{n}", expr)
+    return expr
 
 
 def extract(path):
@@ -96,7 +113,7 @@ def extract(path):
             j += 1
         expr = re.sub(r"\s+", "", src[m.end():j - 1])
         expr = re.sub(r"&&\(\"\"\)$", "", expr)  # trailing && ("message")
-        sites.append({"line": line + 1, "fn": enclosing(lines, line), "expr": canon_expr(expr), "raw": expr, "macro": m.group(1)})
+        sites.append({"line": line + 1, "fn": enclosing(lines, line), "expr": canon_expr(rename_locals(lines, line, expr)), "raw": expr, "macro": m.group(1)})
     return sites
 
 
